@@ -61,6 +61,11 @@ def run_spec(ctx, rep, spec, model, only=None):
     pts = interior_points(spec, ctx.rng) if only is None else [only]
     reqs, pend = [], []
     mlv = model_levels(spec)
+    # the selector is an object that can be reused: half of the queries go through shared selectors,
+    # in an order that hops between levels and boxes
+    shared = {}
+    if only is None:
+        ctx.rng.shuffle(pts)
     for n, (lv, bid, c, pt) in enumerate(pts):
         fsel = [0, list(names)[-1], [0, nf - 1], list(range(nf))][n % 4]
         case = {"spec": spec, "point": pt, "level": lv, "box": bid, "cell": c, "fsel": fsel}
@@ -72,7 +77,15 @@ def run_spec(ctx, rep, spec, model, only=None):
         want = [float(truth[(lv, bid)][loc + (k,)]) for k in idx]
         try:
             with alarm(60), quiet(), pools.controlled():
-                got = pck[fsel](*pt)
+                if n % 2 == 0 or only is not None:
+                    got = pck[fsel](*pt)
+                else:
+                    key = repr(fsel)
+                    if key not in shared:
+                        shared[key] = pck[fsel]
+                    case["reused_selector"] = True
+                    rep.count("reused-selector")
+                    got = shared[key](*pt)
         except Exception as e:
             rep.fail(f"query at an interior cell centre raised {type(e).__name__}: {e}", case)
             continue
@@ -120,7 +133,7 @@ def run(ctx, rep, model=True):
 
 def replay(ctx, rep, obj, model=True):
     c = obj["case"]
-    if c.get("outside"):
+    if c.get("outside") or c.get("reused_selector"):
         run_spec(ctx, rep, c["spec"], model)
     else:
         run_spec(ctx, rep, c["spec"], model, only=(c["level"], c["box"], c["cell"], c["point"]))
